@@ -15,8 +15,10 @@ import itertools
 import json
 from pathlib import Path
 
+import subprocess
+
 from .. import impl  # noqa: F401  (asserts lymph is imported from LYMPH_REPO)
-from ..core import Ctx, HarnessError, VERIF, correspondence, lst, nat, s, shrink, tup
+from ..core import (COQ, HEADER, Ctx, HarnessError, VERIF, lst, nat, parse_coq, s, shrink, split_evals, tup)
 
 from lymph import graph as lgraph
 
@@ -136,13 +138,13 @@ def corruptions(case):
     return out
 
 
-def all_valid(max_lnls, max_tumors=2):
+def all_valid(max_lnls, max_tumors=2, min_lnls=1):
     """All valid dictionaries with tumours a prefix of (T,U), LNLs a prefix of (A,B,C) with at most
     max_lnls LNLs: every arc subset, every listing order, children alphabetical or reversed, base 2 and 3."""
     seen = set()
     out = []
     for nt in range(1, max_tumors + 1):
-        for nl in range(1, max_lnls + 1):
+        for nl in range(min_lnls, max_lnls + 1):
             tumors, lnls = TUMORS[:nt], LNLS[:nl]
             cand = [(t, l) for t in tumors for l in lnls] + [(a, b) for a in lnls for b in lnls if a != b]
             for mask in itertools.product([0, 1], repeat=len(cand)):
@@ -401,8 +403,63 @@ def candidates(case):
     return ok
 
 
+def run_coq_files(workdir: Path, exprs: list[str], shard: int = 1500) -> list:
+    """Like core.run_coq_cases, but coqc writes to files: with stdout on a pipe the 16 parallel
+    processes block as soon as their pipe buffer is full (each shard prints several 100 kB) and the
+    shards run one after the other."""
+    workdir.mkdir(parents=True, exist_ok=True)
+    files = []
+    for k in range(0, len(exprs), shard):
+        f = workdir / f"cases_{k // shard}.v"
+        with open(f, "w") as fh:
+            fh.write(HEADER.format(imports=IMPORTS))
+            fh.write(PRELUDE + "\n")
+            for e in exprs[k:k + shard]:
+                fh.write(f"Eval vm_compute in ({e}).\n")
+        files.append(f)
+    pending = list(files)
+    running = []
+    done = {}
+    while pending or running:
+        while pending and len(running) < 16:
+            f = pending.pop(0)
+            out = open(f.with_suffix(".out"), "w")
+            err = open(f.with_suffix(".err"), "w")
+            p = subprocess.Popen(["timeout", "900", "coqc", "-Q", str(COQ / "theories"), "LymphModel", f.name],
+                                 cwd=workdir, stdout=out, stderr=err)
+            running.append((f, p, out, err))
+        f, p, out, err = running.pop(0)
+        p.wait()
+        out.close()
+        err.close()
+        if p.returncode != 0:
+            raise HarnessError(f"coqc failed on {f}: {f.with_suffix('.err').read_text()[-2000:]}")
+        done[f] = f.with_suffix(".out").read_text()
+    results = []
+    for k, f in enumerate(files):
+        vals = split_evals(done[f])
+        expect = len(exprs[k * shard:(k + 1) * shard])
+        if len(vals) != expect:
+            raise HarnessError(f"{f}: expected {expect} results, got {len(vals)}")
+        results.extend(parse_coq(v) for v in vals)
+    return results
+
+
 def failing(ctx, cases, tag):
-    bad = correspondence(ctx, cases, impl_fn, coq_expr, compare, IMPORTS, tag=tag, shard=1500, prelude=PRELUDE)
+    observed = []
+    for c in cases:
+        try:
+            observed.append(("ok", impl_fn(c)))
+        except HarnessError:
+            raise
+        except Exception as e:  # noqa: BLE001
+            observed.append(("err", impl.err_enum(e), repr(e)[:300]))
+    vals = run_coq_files(ctx.work / tag, [coq_expr(c) for c in cases])
+    bad = []
+    for c, o, v in zip(cases, observed, vals):
+        mm = compare(c, o, v)
+        if mm is not None:
+            bad.append((c, mm))
     badset = {json.dumps(c, sort_keys=True) for c, _ in bad}
     return [json.dumps(c, sort_keys=True) in badset for c in cases], bad
 
@@ -448,6 +505,8 @@ def run(ctx: Ctx, a_ok: bool):
             cases.append(v)
             cases.extend(corruptions(v))
         ctx.exhaustive = True
+        three = all_valid(3, max_tumors=1, min_lnls=3)     # valid only: their corruptions would be ~1.7 million cases
+        cases.extend(three)
         n3 = 500
         for _ in range(n3):
             v = gen_valid(rng, n_lnls=3)
@@ -456,7 +515,8 @@ def run(ctx: Ctx, a_ok: bool):
         ctx.extra["exhaustive_space"] = (
             f"{len(small)} valid dictionaries = all with tumours a prefix of (T,U), LNLs a prefix of (A,B) (<= 2 LNLs): every arc "
             f"subset, every listing order, children ascending or descending, base 2 and 3; each with EVERY single-fault "
-            f"corruption; plus {n3} random 3-LNL dictionaries with every single-fault corruption (sampled, not exhaustive)")
+            f"corruption; plus all {len(three)} valid dictionaries with one tumour and the three LNLs A,B,C (same enumeration, "
+            f"without corruptions); plus {n3} random 3-LNL dictionaries with every single-fault corruption (sampled, not exhaustive)")
     # de-duplicate (corruptions of different dictionaries can coincide)
     seen, uniq = set(), []
     for c in cases:
@@ -499,7 +559,11 @@ def run(ctx: Ctx, a_ok: bool):
 
 def replay(ctx: Ctx, path: str) -> int:
     data = json.loads(open(path).read())
-    _, bad = failing(ctx, [data["case"]], "replay")
+    try:
+        _, bad = failing(ctx, [data["case"]], "replay")
+    finally:
+        import shutil
+        shutil.rmtree(ctx.work, ignore_errors=True)
     if bad:
         print("REPRODUCED", json.dumps(bad[0][1], default=str))
         return 1
